@@ -291,6 +291,18 @@ func (p *ClusterProp) Run(seed uint64, tier string, tr *core.Trace) (out *RunOut
 			if su.MaxTx > 0 && len(txs) > su.MaxTx {
 				txs = txs[:su.MaxTx]
 			}
+			if rp, ok := su.Policy.(*RefNoisePolicy); ok {
+				// one transaction in ten stays in the mempool: validated on the observed replica, never delivered
+				kept := txs[:0]
+				for _, t := range txs {
+					if t.Group == "" && rng.Intn(10) == 0 {
+						rp.Held = append(rp.Held, t.Bytes)
+						continue
+					}
+					kept = append(kept, t)
+				}
+				txs = kept
+			}
 			st := &core.Step{Kind: "block", DtMs: drawDt(rng, e.W.Knobs)}
 			for _, t := range txs {
 				st.Txs = append(st.Txs, hex.EncodeToString(t.Bytes))
